@@ -41,11 +41,13 @@ type Monitors struct {
 	selected map[string]int
 	// rows reported to a request's lock command
 	opRows map[string]int64
+	// tick number since which a task has been in state init without interruption
+	initSince map[string]int
 }
 
 func NewMonitors(s *Sim) *Monitors {
 	m := &Monitors{s: s, routerFailed: map[string]bool{}, claimed: map[string]string{}, sends: map[string][]*SentMsg{},
-		completedAt: map[string]int64{}, deletedAck: map[string]int64{}, fired: map[string]int{}, hits: map[string]int{}, regions: map[string]bool{}, guar: map[string]int64{}, selected: map[string]int{}, opRows: map[string]int64{}}
+		completedAt: map[string]int64{}, deletedAck: map[string]int64{}, fired: map[string]int{}, hits: map[string]int{}, regions: map[string]bool{}, guar: map[string]int64{}, selected: map[string]int{}, opRows: map[string]int64{}, initSince: map[string]int{}}
 	found := false
 	for _, src := range s.cfg.Sources {
 		if src.Name == "default" {
@@ -449,6 +451,9 @@ func (m *Monitors) checkTasks(prev *vh.Snapshot, bi *BatchInfo, next *vh.Snapsho
 		}
 		typ, _, _ := mesgOf(t0.Mesg)
 		edge := fmt.Sprintf("%d>%d", t0.State, t1.State)
+		if t1.State == 1 {
+			m.initSince[id] = m.s.tickNo
+		}
 		m.hit("task.edge." + edge)
 		switch {
 		case t0.State == 8 || t0.State == 16:
@@ -584,6 +589,7 @@ func (m *Monitors) checkTasks(prev *vh.Snapshot, bi *BatchInfo, next *vh.Snapsho
 			continue
 		}
 		m.hit("task.created")
+		m.initSince[id] = m.s.tickNo
 		typ, root, _ := mesgOf(t1.Mesg)
 		switch {
 		case expectedReg[id]:
@@ -1169,7 +1175,11 @@ func (m *Monitors) checkView(where string, v *promise.Promise, clockRule string)
 		m.violate("C01", "payload:pending-with-completion-data", fmt.Sprintf("%s shows pending promise with completion data: %s", where, v))
 	}
 	if clockRule != "" && m.s.now >= v.Timeout {
-		m.violate("C04", "payload:pending-after-deadline:"+clockRule, fmt.Sprintf("%s at tick %d shows %s pending although its timeout is %d", where, m.s.now, v.Id, v.Timeout))
+		props := "C04"
+		if clockRule == "search" {
+			props = "C04,C14"
+		}
+		m.violate(props, "payload:pending-after-deadline:"+clockRule, fmt.Sprintf("%s at tick %d shows %s pending although its timeout is %d", where, m.s.now, v.Id, v.Timeout))
 	}
 }
 
